@@ -19,7 +19,10 @@ inductive SameTy : Ty → Ty → Prop
   | string : SameTy .string .string
   | record (s : String) : SameTy (.record s) (.record s)
   | enum (s : String) : SameTy (.enum s) (.enum s)
-  | array (c1 c2 : PCst) (e1 e2 : Ty) : SameTy e1 e2 → SameTy (.array c1 e1) (.array c2 e2)
+  | array (n : Nat) (c1 c2 : PCst) (e1 e2 : Ty) : SameTy e1 e2 → SameTy (.array n c1 e1) (.array n c2 e2)
+  | range (n : Nat) : SameTy (.range n) (.range n)
+  | slice (n : Nat) (c1 c2 : PCst) (e1 e2 : Ty) : SameTy e1 e2 → SameTy (.slice n c1 e1) (.slice n c2 e2)
+  | tuple (ms1 ms2 : TyList) : SameMembers ms1 ms2 → SameTy (.tuple ms1) (.tuple ms2)
   | func (ps1 ps2 : TyList) (rc1 rc2 : PCst) (r1 r2 : Ty) :
       SameTys ps1 ps2 → SameTy r1 r2 → SameTy (.func ps1 rc1 r1) (.func ps2 rc2 r2)
 /-- parameter lists: same length, same constness, same types -/
@@ -27,6 +30,11 @@ inductive SameTys : TyList → TyList → Prop
   | nil : SameTys .nil .nil
   | cons (c : PCst) (t1 t2 : Ty) (r1 r2 : TyList) :
       SameTy t1 t2 → SameTys r1 r2 → SameTys (.cons c t1 r1) (.cons c t2 r2)
+/-- members of a tuple: same length, same types (their constness is not part of the type) -/
+inductive SameMembers : TyList → TyList → Prop
+  | nil : SameMembers .nil .nil
+  | cons (c1 c2 : PCst) (t1 t2 : Ty) (r1 r2 : TyList) :
+      SameTy t1 t2 → SameMembers r1 r2 → SameMembers (.cons c1 t1 r1) (.cons c2 t2 r2)
 end
 
 /-- the language rule: numeric kinds convert into each other, an enum value converts to int,
@@ -37,7 +45,10 @@ inductive Accepts : Ty → CT → Prop
   | enumToInt (e : String) : Accepts .int (.val (.enum e))
   | char : Accepts .char (.val .char)
   | string : Accepts .string (.val .string)
-  | array (c1 c2 : PCst) (e1 e2 : Ty) : SameTy e1 e2 → Accepts (.array c1 e1) (.val (.array c2 e2))
+  | array (n : Nat) (c1 c2 : PCst) (e1 e2 : Ty) : SameTy e1 e2 → Accepts (.array n c1 e1) (.val (.array n c2 e2))
+  | range (n : Nat) : Accepts (.range n) (.val (.range n))
+  | slice (n : Nat) (c1 c2 : PCst) (e1 e2 : Ty) : SameTy e1 e2 → Accepts (.slice n c1 e1) (.val (.slice n c2 e2))
+  | tuple (ms1 ms2 : TyList) : SameMembers ms1 ms2 → Accepts (.tuple ms1) (.val (.tuple ms2))
   | record (s : String) : Accepts (.record s) (.val (.record s))
   | recordId (s : String) : Accepts (.record s) (.recordId s)
   | enum (s : String) : Accepts (.enum s) (.val (.enum s))
@@ -75,10 +86,33 @@ theorem paramCmp_sound : (t1 : Ty) → (cc : Bool) → (c1 c2 : PCst) → (t2 : 
     cases t2 <;> simp [paramCmp] at h
     rename_i ps2 rc2 r2
     exact .func _ _ _ _ _ _ (paramListCmp_sound ps1 ps2 h.2.1) (paramCmp_sound r1 false rc1 rc2 r2 h.2.2)
-  | .array ec e, cc, c1, c2, t2, h => by
+  | .array n ec e, cc, c1, c2, t2, h => by
     cases t2 <;> simp [paramCmp] at h
-    rename_i ec2 e2
-    exact .array _ _ _ _ (paramCmp_sound e false ec ec2 e2 h.2)
+    rename_i n2 ec2 e2
+    obtain ⟨_, hn, he⟩ := h
+    subst hn
+    exact .array _ _ _ _ _ (paramCmp_sound e false ec ec2 e2 he)
+  | .range n, cc, c1, c2, t2, h => by
+    cases t2 <;> simp [paramCmp] at h
+    rw [← h.2]; exact .range n
+  | .slice n ec e, cc, c1, c2, t2, h => by
+    cases t2 <;> simp [paramCmp] at h
+    rename_i n2 ec2 e2
+    obtain ⟨_, hn, he⟩ := h
+    subst hn
+    exact .slice _ _ _ _ _ (paramCmp_sound e false ec ec2 e2 he)
+  | .tuple ms, cc, c1, c2, t2, h => by
+    cases t2 <;> simp [paramCmp] at h
+    rename_i ms2
+    exact .tuple _ _ (paramListCmpNC_sound ms ms2 h.2)
+
+theorem paramListCmpNC_sound : (ps1 ps2 : TyList) → paramListCmp false ps1 ps2 = true → SameMembers ps1 ps2
+  | .nil, .nil, _ => .nil
+  | .nil, .cons _ _ _, h => by simp [paramListCmp] at h
+  | .cons _ _ _, .nil, h => by simp [paramListCmp] at h
+  | .cons c1 t1 r1, .cons c2 t2 r2, h => by
+    simp only [paramListCmp, Bool.and_eq_true] at h
+    exact .cons _ _ _ _ _ _ (paramCmp_sound t1 false c1 c2 t2 h.1) (paramListCmpNC_sound r1 r2 h.2)
 
 theorem paramListCmp_sound : (ps1 ps2 : TyList) → paramListCmp true ps1 ps2 = true → SameTys ps1 ps2
   | .nil, .nil, _ => .nil
@@ -109,7 +143,7 @@ def paramCmpPinned (constCmp : Bool) (c1 : PCst) (t1 : Ty) (c2 : PCst) (t2 : Ty)
   | .float, .float => true
   | .char, .char => true
   | .string, .string => true
-  | .array ec1 e1, .array ec2 e2 => paramCmpPinned false ec1 e1 ec2 e2
+  | .array _ ec1 e1, .array _ ec2 e2 => paramCmpPinned false ec1 e1 ec2 e2
   | .enum a, .enum b => a == b
   | .record a, .record b => a == b
   | .func ps1 rc1 r1, .func ps2 _ _ =>
@@ -173,11 +207,35 @@ theorem paramExprCmp_sound (cc : Bool) (pc : PCst) (pt : Ty) (ln : Ln) (c : Comb
           exact .func _ _ _ _ _ _ (paramListCmp_sound ps ps2 hf.1)
             (paramCmp_sound r false rc rc2 r2 hf.2)
         · simp [hf] at h
-      | array ec e =>
+      | array n ec e =>
         cases a <;> simp at h
-        rename_i ec2 e2
-        by_cases hf : paramCmp false ec2 e ec2 e2 = true
-        · exact .array _ _ _ _ (paramCmp_sound e false ec2 ec2 e2 hf)
+        rename_i n2 ec2 e2
+        by_cases hf : (n == n2 && paramCmp false ec2 e ec2 e2) = true
+        · simp only [Bool.and_eq_true, beq_iff_eq] at hf
+          obtain ⟨hn, he⟩ := hf
+          subst hn
+          exact .array _ _ _ _ _ (paramCmp_sound e false ec2 ec2 e2 he)
+        · simp at hf; simp_all
+      | range n =>
+        cases a <;> simp at h
+        rename_i n2
+        by_cases hn : n = n2
+        · subst hn; exact .range n
+        · simp [hn] at h
+      | slice n ec e =>
+        cases a <;> simp at h
+        rename_i n2 ec2 e2
+        by_cases hf : (n == n2 && paramCmp false ec2 e ec2 e2) = true
+        · simp only [Bool.and_eq_true, beq_iff_eq] at hf
+          obtain ⟨hn, he⟩ := hf
+          subst hn
+          exact .slice _ _ _ _ _ (paramCmp_sound e false ec2 ec2 e2 he)
+        · simp at hf; simp_all
+      | tuple ms =>
+        cases a <;> simp at h
+        rename_i ms2
+        by_cases hf : paramListCmp false ms ms2 = true
+        · exact .tuple _ _ (paramListCmpNC_sound ms ms2 hf)
         · simp [hf] at h
     | recordId r' =>
       rw [hct] at h
@@ -328,6 +386,249 @@ theorem tc_match_missing (Γ : Env) (ln : Ln) (s : Expr) (g : Guard) (gs : Guard
 theorem not_exhaustive_iff (Γ : Env) (en : String) (gs : GuardList) :
     exhaustive Γ en gs = false ↔ hasElse gs = false ∧ ∃ it ∈ Γ.enumItems en, coversItem it gs = false := by
   simp [exhaustive]
+
+/-! ## D11: branches, tuples, array shape, for-in, pipes, the mark flags -/
+
+/-- the two branches of `?:` / if-else are compared by `expr_comb_cmp_and_set` -/
+theorem tc_cond_branches (Γ : Env) (ln : Ln) (c t e : Expr) (cc ct ce : Comb) (r : Rule)
+    (hc : tc Γ c = .ok cc) (ht : tc Γ t = .ok ct) (he : tc Γ e = .ok ce)
+    (hb : isBool cc.ct = true) (hcmp : combCmp ct.ct ce.ct = .error r) :
+    tc Γ (.cond ln c t e) = .error ⟨ln, r⟩ := by
+  simp [tc, hc, ht, he, hb, hcmp]
+
+/-- two tuple types whose member lists `param_list_cmp` tells apart are not unified -/
+theorem combCmp_tuple (ms1 ms2 : TyList) (h : paramListCmp false ms1 ms2 = false) :
+    combCmp (.val (.tuple ms1)) (.val (.tuple ms2)) = .error .condBranches := by
+  simp [combCmp, h]
+
+theorem combCmp_range (n1 n2 : Nat) (h : n1 ≠ n2) :
+    combCmp (.val (.range n1)) (.val (.range n2)) = .error .branchRanges := by
+  simp [combCmp, h]
+
+theorem combCmp_array (n1 n2 : Nat) (c1 c2 : PCst) (e1 e2 : Ty)
+    (h : (n1 == n2 && paramCmp false c1 e1 c2 e2) = false) :
+    combCmp (.val (.array n1 c1 e1)) (.val (.array n2 c2 e2)) = .error .branchArrays := by
+  simp only [combCmp, h]; rfl
+
+theorem combCmp_slice (n1 n2 : Nat) (c1 c2 : PCst) (e1 e2 : Ty)
+    (h : (n1 == n2 && paramCmp false c1 e1 c2 e2) = false) :
+    combCmp (.val (.slice n1 c1 e1)) (.val (.slice n2 c2 e2)) = .error .branchSlices := by
+  simp only [combCmp, h]; rfl
+
+theorem combCmp_func (ps1 ps2 : TyList) (c1 c2 : PCst) (r1 r2 : Ty)
+    (h : funcCmp ps1 c1 r1 ps2 c2 r2 = false) :
+    combCmp (.val (.func ps1 c1 r1)) (.val (.func ps2 c2 r2)) = .error .branchFuncs := by
+  simp only [combCmp, h]; rfl
+
+/-- member lists of different length are told apart -/
+theorem paramListCmp_length (cc : Bool) : (ms1 ms2 : TyList) → ms1.length ≠ ms2.length →
+    paramListCmp cc ms1 ms2 = false
+  | .nil, .nil, h => by simp [TyList.length] at h
+  | .nil, .cons _ _ _, _ => by simp [paramListCmp]
+  | .cons _ _ _, .nil, _ => by simp [paramListCmp]
+  | .cons c1 t1 r1, .cons c2 t2 r2, h => by
+    have := paramListCmp_length cc r1 r2 (by simpa [TyList.length] using h)
+    simp [paramListCmp, this]
+
+/-- the arms of a `match`: the first against each later one -/
+theorem tc_match_arms (Γ : Env) (ln : Ln) (s : Expr) (g : Guard) (gs : GuardList) (cs : Comb)
+    (en : String) (a : Comb) (rest : List Comb) (r : Rule)
+    (hs : tc Γ s = .ok cs) (hen : cs.ct = .val (.enum en))
+    (hg : tcGuards Γ (.cons g gs) = .ok (a :: rest)) (hsame : guardsSameEnum en (.cons g gs) = .ok ())
+    (hex : exhaustive Γ en (.cons g gs) = true) (hcmp : armsCmp a.ct rest = .error r) :
+    tc Γ (.match_ ln s (.cons g gs)) = .error ⟨ln, r⟩ := by
+  simp [tc, hs, hen, hg, hsame, hex, hcmp]
+
+theorem tc_tuple_arity (Γ : Env) (ln : Ln) (elems : ExprList) (ms ms' : TyList) (cs : List (Ln × Comb))
+    (he : tcArgs Γ elems = .ok cs) (hm : resolveTys Γ ms.defaultVar = .ok ms')
+    (hlen : ms'.toList.length ≠ cs.length) :
+    tc Γ (.tuple ln elems ms) = .error ⟨ln, .tupleForm⟩ := by
+  simp [tc, he, hm, paramExprListCmp, hlen, CmpRes.toExcept]
+
+theorem tc_tuple_kind (Γ : Env) (ln : Ln) (elems : ExprList) (ms ms' : TyList) (cs : List (Ln × Comb))
+    (he : tcArgs Γ elems = .ok cs) (hm : resolveTys Γ ms.defaultVar = .ok ms')
+    (hbad : SomeArgRejected ms'.toList cs) :
+    ∃ d, tc Γ (.tuple ln elems ms) = .error d ∧ (d.line = ln ∨ ∃ a ∈ cs, d.line = a.1) := by
+  by_cases hlen : ms'.toList.length = cs.length
+  · obtain ⟨od, hgo⟩ := paramExprListGo_rejects false ms'.toList cs hbad
+    cases od with
+    | none =>
+      exact ⟨⟨ln, .tupleForm⟩, by simp [tc, he, hm, paramExprListCmp, hlen, hgo, CmpRes.toExcept], .inl rfl⟩
+    | some d =>
+      refine ⟨d, by simp [tc, he, hm, paramExprListCmp, hlen, hgo, CmpRes.toExcept], .inr ?_⟩
+      exact paramExprListGo_fail_line false _ _ _ hgo d rfl
+  · exact ⟨_, tc_tuple_arity Γ ln elems ms ms' cs he hm hlen, .inl rfl⟩
+
+theorem tc_proj_bounds (Γ : Env) (ln iln : Ln) (e : Expr) (i : Nat) (c : Comb) (ms : TyList)
+    (he : tc Γ e = .ok c) (hct : c.ct = .val (.tuple ms)) (hi : ms.get? i = none) :
+    tc Γ (.proj ln e iln i) = .error ⟨ln, .tupleIndex⟩ := by
+  simp [tc, he, hct, hi]
+
+theorem TyList.get?_none : (ms : TyList) → (i : Nat) → ms.length ≤ i → ms.get? i = none
+  | .nil, _, _ => rfl
+  | .cons _ _ r, 0, h => by simp [TyList.length] at h
+  | .cons _ _ r, i + 1, h => by
+    simp only [TyList.get?]
+    exact TyList.get?_none r i (by simpa [TyList.length] using h)
+
+/-! ### array literal shape -/
+
+/-- rows of a level, as `array_depth_list_well_formed` meets them (last row first): the first
+fixes the count, a later row with another count — an EMPTY one included — is refused -/
+theorem checkRowsSame_differs (n : Nat) : (cnts : List Nat) → (∃ m ∈ cnts, m ≠ n) →
+    checkRowsSame n (cnts.map Item.sub) = .error ⟨0, .arrayShape⟩
+  | [], h => by simp at h
+  | m :: r, h => by
+    simp only [List.map, checkRowsSame]
+    by_cases hm : m = n
+    · subst hm
+      simp
+      apply checkRowsSame_differs m r
+      obtain ⟨m', hm', hne⟩ := h
+      cases hm' with
+      | head => exact absurd rfl hne
+      | tail _ ht => exact ⟨m', ht, hne⟩
+    · simp [hm]
+
+theorem checkRows_differs (n : Nat) (cnts : List Nat) (h : ∃ m ∈ cnts, m ≠ n) :
+    checkRows ((n :: cnts).map Item.sub) = .error ⟨0, .arrayShape⟩ := by
+  simp only [List.map, checkRows]
+  exact checkRowsSame_differs n cnts h
+
+/-- a two-level literal `[ row_1, …, row_k ] : T` whose rows do not all have the length of the
+last one: refused with the shape diagnostic (which the C code prints at line 0: a row has no
+line of its own; "array is not well formed" at the literal's line follows) -/
+theorem tc_array_ragged (Γ : Env) (ln : Ln) (elems : ExprList) (ec : PCst) (ety et : Ty)
+    (cnts : List Nat) (n : Nat) (leaves : List Item)
+    (hrows : tcRows Γ elems = .ok [(cnts ++ [n]).map Item.sub, leaves])
+    (hty : resolveTy Γ ety = .ok et)
+    (hleaves : checkDeepest ec.normVar et leaves.reverse = .ok ())
+    (hdiff : ∃ m ∈ cnts, m ≠ n) :
+    tc Γ (.array ln elems ec ety) = .error ⟨0, .arrayShape⟩ := by
+  have hr : checkRows (Item.sub n :: (List.map Item.sub cnts).reverse) = .error ⟨0, .arrayShape⟩ := by
+    have : Item.sub n :: (List.map Item.sub cnts).reverse = (n :: cnts.reverse).map Item.sub := by
+      simp [List.map_reverse]
+    rw [this]
+    apply checkRows_differs
+    obtain ⟨m, hm, hne⟩ := hdiff
+    exact ⟨m, by simpa using hm, hne⟩
+  simp [tc, hrows, hty, wellFormed, hleaves, checkShallow, hr]
+
+/-! ### for-in -/
+
+/-- the iterator of a for-in over a CONST one-dimensional array is CONST: assigning to it in the
+loop body is refused at the assignment -/
+theorem tc_forin_assign_const (Γ : Env) (ln la lx : Ln) (x : String) (a rhs : Expr) (ca cr : Comb)
+    (n : Nat) (ec : PCst) (et : Ty)
+    (ha : tc Γ a = .ok ca) (hct : ca.ct = .val (.array n ec et)) (hn : n = 1) (hconst : ca.cst = .const)
+    (hr : tc (Γ.push [(x, .forin ⟨.val et, .const⟩)]) rhs = .ok cr) :
+    tc Γ (.forIn ln x a (.ass la (.id lx x) rhs)) = .error ⟨la, .assignConst⟩ := by
+  subst hn
+  have hit : forinIter ca = some ⟨.val et, .const⟩ := by simp [forinIter, hct, hconst]
+  have hlook : (Γ.push [(x, .forin ⟨.val et, .const⟩)]).lookup x = some (.forin ⟨.val et, .const⟩) := by
+    simp [Env.lookup, Env.push, lookupScopes, Scope.find]
+  simp [tc, ha, hit, hr, hlook, idComb, isVarCst]
+
+/-- the same for a range (its elements are `let int`) -/
+theorem tc_forin_assign_range (Γ : Env) (ln la lx : Ln) (x : String) (a rhs : Expr) (ca cr : Comb)
+    (ha : tc Γ a = .ok ca) (hct : ca.ct = .val (.range 1))
+    (hr : tc (Γ.push [(x, .forin ⟨.val .int, .const⟩)]) rhs = .ok cr) :
+    tc Γ (.forIn ln x a (.ass la (.id lx x) rhs)) = .error ⟨la, .assignConst⟩ := by
+  have hit : forinIter ca = some ⟨.val .int, .const⟩ := by simp [forinIter, hct]
+  have hlook : (Γ.push [(x, .forin ⟨.val .int, .const⟩)]).lookup x = some (.forin ⟨.val .int, .const⟩) := by
+    simp [Env.lookup, Env.push, lookupScopes, Scope.find]
+  simp [tc, ha, hit, hr, hlook, idComb, isVarCst]
+
+/-! ### pipes -/
+
+/-- `l |> f(args)`, `l` not a tuple: the first parameter takes `l`; then as many explicit
+arguments as there are further parameters — fewer AND more are refused at the pipe -/
+theorem tc_pipe_arity (Γ : Env) (ln : Ln) (l f : Expr) (args : ExprList) (cl cf : Comb)
+    (cs : List (Ln × Comb)) (pc : PCst) (pt : Ty) (ps : TyList) (rc : PCst) (r : Ty)
+    (hl : tc Γ l = .ok cl) (hnt : ∀ ms, cl.ct ≠ .val (.tuple ms))
+    (hf : tc Γ f = .ok cf) (hct : cf.ct = .val (.func (.cons pc pt ps) rc r))
+    (ha : tcArgs Γ args = .ok cs)
+    (hfirst : paramExprCmp true pc pt l.ln cl = .ok)
+    (hlen : ps.toList.length ≠ cs.length) :
+    tc Γ (.pipe ln l f args) = .error ⟨ln, .callMismatch⟩ := by
+  cases hcl : cl.ct with
+  | val t =>
+    cases t with
+    | tuple ms => exact absurd hcl (hnt ms)
+    | _ => simp [tc, hl, hf, ha, hct, hcl, pipeCmp, TyList.toList, hfirst, hlen, CmpRes.toExcept]
+  | _ => simp [tc, hl, hf, ha, hct, hcl, pipeCmp, TyList.toList, hfirst, hlen, CmpRes.toExcept]
+
+/-- a function without parameters takes no piped value -/
+theorem tc_pipe_noparams (Γ : Env) (ln : Ln) (l f : Expr) (args : ExprList) (cl cf : Comb)
+    (cs : List (Ln × Comb)) (rc : PCst) (r : Ty)
+    (hl : tc Γ l = .ok cl) (hf : tc Γ f = .ok cf) (hct : cf.ct = .val (.func .nil rc r))
+    (ha : tcArgs Γ args = .ok cs) :
+    tc Γ (.pipe ln l f args) = .error ⟨ln, .callMismatch⟩ := by
+  cases hcl : cl.ct with
+  | val t =>
+    cases t <;> simp [tc, hl, hf, ha, hct, hcl, pipeCmp, pipeTupleCmp, TyList.toList, CmpRes.toExcept]
+  | _ => simp [tc, hl, hf, ha, hct, hcl, pipeCmp, pipeTupleCmp, TyList.toList, CmpRes.toExcept]
+
+/-- `t |> f(args)`, `t` a tuple: members and explicit arguments together must be as many as the
+parameters -/
+theorem tc_pipe_tuple_arity (Γ : Env) (ln : Ln) (l f : Expr) (args : ExprList) (cl cf : Comb)
+    (cs : List (Ln × Comb)) (ms ps : TyList) (rc : PCst) (r : Ty)
+    (hl : tc Γ l = .ok cl) (hlt : cl.ct = .val (.tuple ms))
+    (hf : tc Γ f = .ok cf) (hct : cf.ct = .val (.func ps rc r))
+    (ha : tcArgs Γ args = .ok cs)
+    (hlen : ps.toList.length ≠ ms.toList.length + cs.length) :
+    tc Γ (.pipe ln l f args) = .error ⟨ln, .callMismatch⟩ := by
+  simp only [tc, hl, hf, ha, hct, hlt, bind_ok]
+  by_cases he : ps.toList.isEmpty = true
+  · simp [pipeTupleCmp, he, CmpRes.toExcept]
+  · simp [pipeTupleCmp, he, hlen, CmpRes.toExcept]
+
+/-! ### exhaustiveness on the shared mark flags -/
+
+theorem contains_unmarkEnum (m : Marks) (en it : String) : (unmarkEnum m en).contains (en, it) = false := by
+  induction m with
+  | nil => rfl
+  | cons p r ih =>
+    unfold unmarkEnum at ih ⊢
+    rw [List.filter_cons]
+    by_cases hp : p.1 = en
+    · simp [hp, ih]
+    · have h1 : (p.1 != en) = true := by simp [hp]
+      rw [if_pos h1, List.contains_cons, ih]
+      have h2 : ((en, it) == p) = false := by
+        obtain ⟨a, b⟩ := p
+        simp at hp ⊢
+        intro h; exact absurd h.symm hp
+      simp [h2]
+
+theorem contains_markGuards (en it : String) : (gs : GuardList) → (m : Marks) →
+    (markGuards en gs m).contains (en, it) = (coversItem it gs || m.contains (en, it))
+  | .nil, m => by simp [markGuards, coversItem]
+  | .cons (.item _ _ it' _) rest, m => by
+    rw [markGuards, contains_markGuards en it rest]
+    simp only [coversItem, List.contains_cons]
+    by_cases h : it' = it
+    · subst h; simp
+    · have h' : ¬ it = it' := fun e => h e.symm
+      have e1 : ((en, it) == (en, it')) = false := by simp [h']
+      have e2 : (it' == it) = false := by simp [h]
+      simp [e1, e2, Bool.or_comm]
+  | .cons (.else_ _ _) rest, m => by
+    rw [markGuards, contains_markGuards en it rest]
+    simp [coversItem]
+
+/-- whatever marks earlier checks left behind, the verdict of `expr_match_guard_list_exhaustive`
+is the state-free `exhaustive` (the marks of the matched enum are cleared FIRST) -/
+theorem exhaustiveM_fst (Γ : Env) (en : String) (gs : GuardList) (m : Marks) :
+    (exhaustiveM Γ en gs m).1 = exhaustive Γ en gs := by
+  unfold exhaustiveM exhaustive
+  by_cases he : hasElse gs = true
+  · simp [he]
+  · simp only [he, Bool.false_eq_true, ↓reduceIte, Bool.false_or, allMarked]
+    congr 1
+    funext it
+    rw [contains_markGuards, contains_unmarkEnum]
+    simp
 
 /-! ## function-level rules (`tcRest`) -/
 
